@@ -258,6 +258,39 @@ def run_case(case, workdir):
                 if not same(v, e):
                     rec.fail("values", dict(sub, call=k), "read %d through a re-used stream object returned wrong data" % k)
                     break
+    # the caller EDITS what it was given (normalises it in place) and asks again: the same box at once, then every box, then a
+    # multi-box selection - all through fresh selections of one reader, and again through a second reader of the same plotfile
+    MARK = -3.25e91
+    for lv in range(ref.nlevels):
+        nb = len(ref.boxes[lv])
+        if case.get("boxes_only") and lv != case.get("devlevel"):
+            continue
+        for ftag, fidx in ((["name", names[0]], 0), (["slice", None, None, None], slice(None))):
+            with vpool.controlled():
+                def edits():
+                    outs = []
+                    for b in range(min(nb, 4)):
+                        a = pck[S.decode(ftag)][lv][b]
+                        a[...] = MARK
+                        outs.append(pck[S.decode(ftag)][lv][b])
+                    many = pck[S.decode(ftag)][lv][list(range(min(nb, 4)))]
+                    for a in many:
+                        a[...] = MARK
+                    outs.append(pck[S.decode(ftag)][lv][list(range(min(nb, 4)))])
+                    outs.append(PlotfileCooker(path)[S.decode(ftag)][lv][min(nb, 4) - 1])
+                    return outs
+                st, val = call(edits)
+            rec.exe([dh, "caller_edits", lv, ftag], nontrivial=True, trans=2 * min(nb, 4) + 3)
+            sub = {"field": ftag, "level": lv, "box": ["history", "a=pck[f][lv][b]; a[...]=x; pck[f][lv][b] for each b; the same with a list of boxes; a second reader"], "class": "A"}
+            if st == "exc":
+                rec.fail("raised", sub, exc_text(val))
+                continue
+            exps = [expected(ref, lv, fidx, b) for b in range(min(nb, 4))] + [expected(ref, lv, fidx, list(range(min(nb, 4))))] + \
+                   [expected(ref, lv, fidx, min(nb, 4) - 1)]
+            for k, (v, e) in enumerate(zip(val, exps)):
+                if not same(v, e):
+                    rec.fail("values", dict(sub, call=k), "read %d after the caller edited an earlier result in place returned wrong data" % k)
+                    break
     # multi-box selections under every order of the per-box read tasks (the result must stay in requested order)
     from .. import explorer
     for lv in range(ref.nlevels):
